@@ -280,7 +280,7 @@ def same(line, impl_out, model_out):
         return True
     if line.startswith("cap "):
         return same_cap(impl_out, model_out)
-    if line.startswith("capf "):
+    if line.startswith("capf ") or line.startswith("capr "):
         try:
             return impl_out == canon_capf(model_out)
         except Exception:
